@@ -251,6 +251,28 @@ def p_pipeline(entropy, k, n, pw, e, ident, rnd, subsets, fast):
     return None
 
 
+def p_recover_repeat(entropy, k, n, pw, pw2, ident, rnd):
+    """recover() is a function of its arguments: repeated calls on ONE ShareSet object with different
+    passphrases return what a fresh object returns for that passphrase (no result is remembered)"""
+    m = mnemonic.bytes_to_mnemonic(entropy, len(entropy) * 8)
+    with patched(Rnd(ident, rnd), True):
+        shares = [Share.parse(x) for x in ShareSet.generate_shares(m, k, n, pw, 0)][:k]
+
+        def fresh(p):
+            return ShareSet(list(shares)).recover(p)
+        want1, want2 = fresh(pw), fresh(pw2)
+        if want1 != entropy:
+            return "fresh recovery with the right passphrase does not return the secret"
+        for order in ((pw2, pw), (pw, pw2), (pw, pw), (pw2, pw, pw2)):
+            ss = ShareSet(list(shares))
+            for p in order:
+                got = ss.recover(p)
+                if got != (want1 if p == pw else want2):
+                    return (f"recover() on a reused ShareSet returned a stale value for call sequence "
+                            f"{[x.decode('latin1') for x in order]}")
+    return None
+
+
 def p_mixed(entropy, k, n, ident1, ident2, rnd, what):
     """shares of two different splits are never combined"""
     m = mnemonic.bytes_to_mnemonic(entropy, len(entropy) * 8)
@@ -377,7 +399,7 @@ def p_two_level(secret, gt, gc, groups, rnd, take):
     return None
 
 
-PROPS = {"gf": p_gf, "split_recover": p_split_recover, "pipeline": p_pipeline, "mixed": p_mixed,
+PROPS = {"recover_repeat": p_recover_repeat, "gf": p_gf, "split_recover": p_split_recover, "pipeline": p_pipeline, "mixed": p_mixed,
          "share_rt": p_share_rt, "subst1_all": p_subst1_all, "subst_multi": p_subst_multi, "feistel": p_feistel,
          "two_level": p_two_level}
 
@@ -599,6 +621,13 @@ def generate(ctx):
         yield ("corr", "generate_shares", [m.encode(), k, n, pw, e, ident, rnd])
         sh = IMPL["generate_shares"](m.encode(), k, n, pw, e, ident, rnd)
         yield ("corr", "recover_mnemonic", [[s.encode() for s in sh[n - k:]], pw])
+    # --- repeated recover() calls on one object with different passphrases
+    for i in range(ctx.n(4, 30)):
+        nb = [16, 32][i % 2]
+        k, n = [(2, 3), (1, 2), (3, 5), (2, 2)][i % 4]
+        ctx.label("recover/repeated-calls-on-one-object")
+        yield ("prop", "recover_repeat", [ctx.rbytes(nb), k, n, b"right", b"typo" + bytes([65 + i % 26]),
+                                          r.getrandbits(15), ctx.rbytes(rnd_need(nb, k))])
     # --- consistency checks of ShareSet.__init__/recover: mixed splits, duplicates, bad group index
     for i in range(ctx.n(60, 2000)):
         nb = r.choice([16, 32])
